@@ -69,6 +69,21 @@
 //! oracle always judges against the source CURRENTLY registered under the reported name
 //! (`history.*` in the histogram; the replay holds the ordered add calls with their outcomes).
 //!
+//! | bad-slice-bound (start / end / step bound of a slice that is a string, float, bool, array or |
+//! | map, with and without the other bounds, on arrays and strings; T = that bound: the engine     |
+//! | names the bound itself)       | Rendering | Contains T                                        |
+//!
+//! Source prefixes: one template in five BEGINS with a byte order mark (also twice, followed by a
+//! newline), U+200B, U+00A0, `é` or a 4-byte character (a child template only with U+00A0: nothing
+//! but white space may precede `extends`); faults follow on line 1 and on later lines. Everything
+//! is judged against the stored source, which is what the error quotes.
+//!
+//! Custom delimiters: about one case in seven is respelled (every template, the fault, the history
+//! batches) in one of six delimiter sets applied with `Tera::set_delimiters` — four of them with
+//! one 2-byte character per delimiter (`¿ ¡ « » § ¶`, `µ ¬ ± ¢ £ ¥`, mixed ones), one ASCII. All
+//! delimiters are 2 bytes long, so byte offsets are those of the default spelling while columns
+//! (counted in characters) are not. The model comparison lexes with the same delimiters.
+//!
 //! Special families (one size parameter each; a failing case shrinks to the smallest failing size):
 //! * deep call chains: 9, 10, 12 and 16 enclosing call sites x (includes only, nested components,
 //!   one recursive component, include / component alternating), some sites inside captures, plus a
@@ -182,6 +197,8 @@ struct SlotInfo {
 
 #[derive(Clone, Debug)]
 struct TSet {
+    /// custom delimiters the set is spelled in (None = the default ones)
+    delims: Option<D>,
     tpls: Vec<TplB>,
     entry: usize,
     slots: Vec<SlotInfo>,
@@ -218,6 +235,59 @@ impl TSet {
         }
         unreachable!("slot {slot} missing")
     }
+}
+
+/// Delimiter sets with one 2-byte character per delimiter (none of these characters occurs in
+/// filler or fault texts), a mixed one and an ASCII one. All are 2 bytes long like the default
+/// delimiters, so respelling a source keeps every byte offset.
+fn delimiter_sets() -> Vec<D> {
+    vec![
+        D::new("¿", "¡", "«", "»", "§", "¶"),
+        D::new("{%", "%}", "«", "»", "{#", "#}"),
+        D::new("§", "%}", "{{", "}}", "¤", "¦"),
+        D::new("µ", "¬", "±", "¢", "£", "¥"),
+        D::new("¿", "%}", "«", "}}", "¤", "#}"),
+        D::new("<%", "%>", "<<", ">>", "<#", "#>"),
+    ]
+}
+
+/// The same source spelled with other delimiters (byte length preserved).
+fn respell(src: &str, d: &D) -> String {
+    let mut out = String::with_capacity(src.len());
+    let b = src.as_bytes();
+    let mut i = 0;
+    while i < b.len() {
+        let two = src.get(i..i + 2);
+        let r = match two {
+            Some("{{") => Some(&d.vs),
+            Some("}}") => Some(&d.ve),
+            Some("{%") => Some(&d.bs),
+            Some("%}") => Some(&d.be),
+            Some("{#") => Some(&d.cs),
+            Some("#}") => Some(&d.ce),
+            _ => None,
+        };
+        match r {
+            Some(x) => {
+                out.push_str(x);
+                i += 2;
+            }
+            None => {
+                let c = src[i..].chars().next().unwrap();
+                out.push(c);
+                i += c.len_utf8();
+            }
+        }
+    }
+    out
+}
+
+fn new_tera(delims: &Option<D>) -> Tera {
+    let mut tera = Tera::default();
+    if let Some(d) = delims {
+        tera.set_delimiters(d.to_delimiters()).expect("delimiter set accepted");
+    }
+    tera
 }
 
 const PARAMS: &str = r#"x = 0, n = 5, s = "héllo", arr = [1, 2, 3], a = {"b": {"c": 1}, "n": 3}, m = {"k": "v"}"#;
@@ -751,11 +821,24 @@ fn gen_set(rng: &mut Rng) -> TSet {
         }
         tpls.push(TplB { name: comps_name.to_string(), pieces: out });
     }
+    // some sources BEGIN with a byte order mark or another multi-byte character (what the error
+    // quotes is the stored source, so every offset counts from its very first byte)
+    for (ti, t) in tpls.iter_mut().enumerate() {
+        if g.rng.chance(1, 5) {
+            // before `extends` only white space is accepted (U+00A0 is, a BOM is not)
+            let pre = if inherit && ti == entry {
+                "\u{a0}"
+            } else {
+                pk(g.rng, &["\u{feff}", "\u{feff}", "\u{feff}", "\u{feff}\u{feff}", "\u{200b}", "\u{a0}", "é", "😀", "\u{feff}\n", "\u{feff}\r\n", "\u{feff}é "])
+            };
+            t.pieces.insert(0, fill(pre));
+        }
+    }
     if g.need_wrap {
         tpls.push(TplB { name: "wrap.html".to_string(), pieces: vec![text("{% component wrapq() %}<w>{{ body }}</w>{% endcomponent wrapq %}")] });
     }
     let slots = g.slots;
-    TSet { tpls, entry, slots, units, has_comp_q: has_q }
+    TSet { delims: None, tpls, entry, slots, units, has_comp_q: has_q }
 }
 
 // ------------------------------------------------------------------ faults
@@ -825,6 +908,25 @@ fn render_exprs(has_q: bool) -> Vec<(&'static str, &'static str, &'static str, C
         ("bad-index", "arr[::0]", "arr[::0]", Overlaps, false),
         ("bad-index", "n[1:2]", "n[1:2]", Overlaps, false),
         ("div-zero", "{\"k\": 1 / 0, \"é\": 2}", "0", Contains, false),
+        // slice bounds of the wrong kind: the engine names the bound itself
+        ("bad-slice-bound", "arr[:\"2\"]", "\"2\"", Contains, false),
+        ("bad-slice-bound", "arr[1:\"x\"]", "\"x\"", Contains, false),
+        ("bad-slice-bound", "arr[n - 5:m]", "m", Contains, false),
+        ("bad-slice-bound", "arr[:2.5]", "2.5", Contains, false),
+        ("bad-slice-bound", "arr[:true:1]", "true", Contains, false),
+        ("bad-slice-bound", "arr[0:[1]:1]", "[1]", Contains, false),
+        ("bad-slice-bound", "s[:\"1\"]", "\"1\"", Contains, false),
+        ("bad-slice-bound", "s[1:2.5]", "2.5", Contains, false),
+        ("bad-slice-bound", "\"é😀日本\"[1:\"é\"]", "\"é\"]", Overlaps, false),
+        ("bad-slice-bound", "arr[::\"2\"]", "\"2\"", Contains, false),
+        ("bad-slice-bound", "arr[1::1.5]", "1.5", Contains, false),
+        ("bad-slice-bound", "arr[:2:[1]]", "[1]", Contains, false),
+        ("bad-slice-bound", "arr[0:1:s]", "@s", Contains, false),
+        ("bad-slice-bound", "s[::m]", "m", Contains, false),
+        ("bad-slice-bound", "arr[\"a\":]", "\"a\"", Contains, false),
+        ("bad-slice-bound", "arr[1.5:2]", "1.5", Contains, false),
+        ("bad-slice-bound", "s[m:1:1]", "m", Contains, false),
+        ("bad-slice-bound", "arr[:\n\t\"2\"\n]", "\"2\"", Contains, false),
         ("div-zero", "1 / 0", "0", Contains, false),
         ("div-zero", "n % 0", "0", Contains, false),
         ("div-zero", "\"é😀x\" == s or 1 // 0", "0", Contains, false),
@@ -1105,11 +1207,14 @@ fn all_classes() -> Vec<&'static str> {
         "in-non-container", "spread-non-array", "component-bad-call", "not-iterable", "kv-on-array", "super-misuse", "unexpected-char",
         "unterminated-string", "bad-escape", "unterminated-var", "unterminated-tag", "missing-end-tag", "unknown-tag", "elif-after-else",
         "extends-misplaced", "duplicate-block", "int-literal-too-large", "empty-expr", "missing-operand", "stray-end-tag", "too-deep",
-        "unknown-name", "parser-misc", "unterminated-comment", "unterminated-raw", "component-attr", "component-call-misc", "component-def", "reserved-name", "component-stray-token",
+        "unknown-name", "parser-misc", "unterminated-comment", "unterminated-raw", "component-attr", "component-call-misc", "component-def", "reserved-name", "component-stray-token", "bad-slice-bound",
     ]
 }
 
 fn is_render_class(c: &str) -> bool {
+    if c == "bad-slice-bound" {
+        return true;
+    }
     let i = all_classes().iter().position(|x| *x == c).unwrap_or(usize::MAX);
     i < 20
 }
@@ -1142,6 +1247,8 @@ struct Case {
     adds: Vec<AddStep>,
     /// label of the history shape ("" = none)
     history: String,
+    /// custom delimiters set on the instance before anything is added (None = default)
+    delims: Option<D>,
 }
 
 #[derive(Clone, Debug)]
@@ -1243,6 +1350,7 @@ impl Case {
             "role": self.role,
             "render_component": self.direct_component,
             "history_shape": self.history,
+            "delimiters": self.delims.as_ref().map(|d| d.to_json()),
             "history": self.adds.iter().map(|a| json!({"add_raw_templates": a.templates.iter().map(|(n, s)| json!([n, s])).collect::<Vec<_>>(), "expect": if a.expect_ok { "ok" } else { "err" }})).collect::<Vec<_>>(),
             "rerun": "harness/target/release/c12 --replay <this file>",
         })
@@ -1290,6 +1398,7 @@ impl Case {
                 })
                 .unwrap_or_default(),
             history: j["history_shape"].as_str().unwrap_or("").to_string(),
+            delims: D::from_json(&j["delimiters"]),
         })
     }
 }
@@ -1345,6 +1454,7 @@ fn build_case(set: &TSet, slot: usize, fault: &Fault) -> Case {
         },
         adds: vec![],
         history: String::new(),
+        delims: set.delims.clone(),
     }
 }
 
@@ -1392,8 +1502,8 @@ fn observe_err(stage: &'static str, e: &tera::Error) -> Obs {
     o
 }
 
-fn observe(templates: &[(String, String)], entry: &str, context: &J) -> Obs {
-    let mut tera = Tera::default();
+fn observe(templates: &[(String, String)], entry: &str, context: &J, delims: &Option<D>) -> Obs {
+    let mut tera = new_tera(delims);
     let tpls: Vec<(String, String)> = templates.to_vec();
     match catch(std::panic::AssertUnwindSafe(|| tera.add_raw_templates(tpls))) {
         Err(p) => return Obs { stage: "add", outcome: "panic", panic_msg: p, ..Default::default() },
@@ -1411,9 +1521,9 @@ fn observe(templates: &[(String, String)], entry: &str, context: &J) -> Obs {
 /// Run the case: its history of `add_raw_templates` calls on one instance, then the render.
 fn observe_case(case: &Case) -> Obs {
     if case.adds.is_empty() {
-        return observe(&case.templates, &case.entry, &case.context);
+        return observe(&case.templates, &case.entry, &case.context, &case.delims);
     }
-    let mut tera = Tera::default();
+    let mut tera = new_tera(&case.delims);
     for (i, st) in case.adds.iter().enumerate() {
         let tpls = st.templates.clone();
         match catch(std::panic::AssertUnwindSafe(|| tera.add_raw_templates(tpls))) {
@@ -1436,8 +1546,8 @@ fn observe_case(case: &Case) -> Obs {
 }
 
 /// Second way into a component body: `Tera::render_component` (defaults for every parameter).
-fn observe_component(templates: &[(String, String)], comp: &str) -> Obs {
-    let mut tera = Tera::default();
+fn observe_component(templates: &[(String, String)], comp: &str, delims: &Option<D>) -> Obs {
+    let mut tera = new_tera(delims);
     let tpls: Vec<(String, String)> = templates.to_vec();
     match catch(std::panic::AssertUnwindSafe(|| tera.add_raw_templates(tpls))) {
         Err(p) => return Obs { stage: "add", outcome: "panic", panic_msg: p, ..Default::default() },
@@ -1792,7 +1902,7 @@ fn run_seed(seed: u64, forced: Option<&str>, perturb: bool) -> Outcome {
     let sources = set.sources();
     let entry = set.tpls[set.entry].name.clone();
     let ctx = base_context();
-    let pre = observe(&sources, &entry, &ctx);
+    let pre = observe(&sources, &entry, &ctx, &None);
     if pre.outcome != "ok" {
         let d = match &pre.display {
             Some(Ok(d)) => d.clone(),
@@ -1844,6 +1954,31 @@ fn run_seed(seed: u64, forced: Option<&str>, perturb: bool) -> Outcome {
         None
     };
     let mut hist = hist;
+    // about one case in seven is spelled in custom delimiters (set on the instance with
+    // `set_delimiters`): every delimiter is 2 bytes long, so all byte offsets stay as they are
+    let (mut set, mut fault) = (set, fault);
+    let mut sources = sources;
+    if forced.is_some_and(|_| seed % 3 == 0) || (forced.is_none() && rng.chance(1, 7)) {
+        let d = rng.pick(&delimiter_sets()).clone();
+        let mut s2 = set.clone();
+        for t in s2.tpls.iter_mut() {
+            for p in t.pieces.iter_mut() {
+                p.text = respell(&p.text, &d);
+            }
+        }
+        s2.delims = Some(d.clone());
+        let src2 = s2.sources();
+        // the respelled set must still register and render (a filler character could collide)
+        if observe(&src2, &entry, &ctx, &s2.delims).outcome == "ok" {
+            set = s2;
+            sources = src2;
+            fault.text = respell(&fault.text, &d);
+            if let Some(h) = hist.as_mut() {
+                h.prefix = respell(&h.prefix, &d);
+                h.broken.1 = respell(&h.broken.1, &d);
+            }
+        }
+    }
     let mut case = finish_case(&set, slot, &fault, &hist);
     let mut obs = observe_case(&case);
     if obs.outcome == "diverged" && obs.panic_msg.starts_with("add #0") {
@@ -1860,7 +1995,7 @@ fn run_seed(seed: u64, forced: Option<&str>, perturb: bool) -> Outcome {
 /// The same fault reached through `Tera::render_component`: same oracle, no enclosing call site.
 fn merge_direct_component(case: &Case, verdict: &mut Verdict, perturb: bool) {
     let Some(comp) = &case.direct_component else { return };
-    let o = observe_component(&case.templates, comp);
+    let o = observe_component(&case.templates, comp, &case.delims);
     let mut c2 = case.clone();
     c2.chain.clear();
     let v2 = oracle(&c2, &o, perturb);
@@ -2227,6 +2362,7 @@ fn deep_case(kind: u8, depth: usize, caps: bool, fault: usize) -> Case {
         direct_component: None,
         adds: vec![],
         history: String::new(),
+        delims: None,
     }
 }
 
@@ -2296,6 +2432,7 @@ fn large_case(chunk: u8, fault: u8, lines: usize) -> Case {
         direct_component: None,
         adds: vec![],
         history: String::new(),
+        delims: None,
     }
 }
 
@@ -2505,7 +2642,7 @@ fn replay(path: &str) {
     }
     let mut v = oracle(&case, &obs, false);
     if let Some(comp) = &case.direct_component {
-        let o = observe_component(&case.templates, comp);
+        let o = observe_component(&case.templates, comp, &case.delims);
         println!("render_component({comp:?}): outcome={} kind={} filename={:?} span={:?}", o.outcome, o.kind, o.filename, o.span);
         if let Some(Ok(d)) = &o.display {
             println!("display:\n{d}");
@@ -2607,6 +2744,28 @@ fn main() {
             report.count(&format!("class.{}", c.class));
             report.count(&format!("role.{}", c.role));
             report.count(&format!("templates.{}", c.templates.len()));
+            if let Some(d) = &c.delims {
+                report.count(&format!("delimiters.{}", d.fields().join(" ")));
+                if let Some(src) = c.src_of(&c.host) {
+                    let pos = c.tok.start.min(src.len());
+                    let ls = src[..pos].rfind('\n').map(|i| i + 1).unwrap_or(0);
+                    let before = &src[ls..pos];
+                    let n = [&d.bs, &d.vs, &d.cs].iter().filter(|x| !x.is_ascii()).map(|x| before.matches(x.as_str()).count()).sum::<usize>();
+                    report.count(&format!("delimiters.non-ascii-starts-before-fault-on-line.{}", n.min(3)));
+                }
+            }
+            for (_, src) in &c.templates {
+                let first = src.chars().next();
+                match first {
+                    Some('\u{feff}') => report.count("source-starts-with.bom"),
+                    Some('\u{200b}') => report.count("source-starts-with.zero-width-space"),
+                    Some('\u{a0}') => report.count("source-starts-with.nbsp"),
+                    _ => {}
+                }
+            }
+            if c.src_of(&c.host).is_some_and(|s| s.starts_with('\u{feff}')) {
+                report.count("host-starts-with-bom");
+            }
             if !c.history.is_empty() {
                 report.count(&format!("history.{}", c.history));
                 if d.obs.outcome == "diverged" {
@@ -2690,7 +2849,7 @@ fn main() {
                 }
             }
             // ---- model requests
-            let d0 = D::default();
+            let d0 = c.delims.clone().unwrap_or_default();
             if let Some(hs) = c.src_of(&c.host) {
                 reqs.push(ModelReq { stage: "lex-spans", req: lexwire::lex_request(false, &d0, hs), imp: lexwire::canon_tokens(hs, &d0, false), case: ci, what: c.host.clone() });
                 reqs.push(ModelReq { stage: "lex-spans-filtered", req: lexwire::lex_request(true, &d0, hs), imp: lexwire::canon_tokens(hs, &d0, true), case: ci, what: c.host.clone() });
@@ -2701,7 +2860,7 @@ fn main() {
                     reqs.push(ModelReq { stage: "lex-spans-filtered", req: lexwire::lex_request(true, &d0, s), imp: lexwire::canon_tokens(s, &d0, true), case: ci, what: format!("{n} (before planting)") });
                 }
             }
-            if ci % 40 == 0 {
+            if ci % 40 == 0 && c.delims.is_none() {
                 for (n, s) in &c.templates {
                     let (dc, sc) = custom_delims(s);
                     reqs.push(ModelReq { stage: "lex-spans", req: lexwire::lex_request(false, &dc, &sc), imp: lexwire::canon_tokens(&sc, &dc, false), case: ci, what: format!("{n} (custom delimiters)") });
@@ -2788,7 +2947,7 @@ fn main() {
         let mut reqs: Vec<(&'static str, String, String, usize)> = Vec::new();
         for (i, src) in srcs.iter().enumerate() {
             let tpls = vec![("t".to_string(), src.clone())];
-            let obs = observe(&tpls, "t", &base_context());
+            let obs = observe(&tpls, "t", &base_context(), &None);
             report.evaluations += 1;
             let case = Case {
                 templates: tpls,
@@ -2806,6 +2965,7 @@ fn main() {
                 direct_component: None,
                 adds: vec![],
                 history: String::new(),
+                delims: None,
             };
             if obs.outcome == "ok" || (obs.outcome == "err" && obs.kind != "Syntax" && obs.kind != "Rendering") {
                 report.count(&format!("eof.not-a-report-error.{}", if obs.outcome == "ok" { "accepted" } else { obs.kind.as_str() }));
